@@ -153,6 +153,8 @@ func init() {
 		mkDHCP4(1, macA, relayGi, opt82cid), mkDHCP4(3, macA, relayGi, opt82cid),
 		mkDHCP4(1, macA, relayGi, hx("52 01 01")), mkDHCP4(1, macA, relayGi, hx("52 02 01 ff")), mkDHCP4(1, macA, relayGi, hx("52 02 01 00")),
 		mkDHCP4(3, macA, relayGi, hx("52 03 01 05 41")), mkDHCP4(3, macA, relayGi, hx("52 00")), mkDHCP4(3, macA, noGi, hx("32 00")), mkDHCP4(4, macA, noGi, hx("32 01 0a")),
+		// the seed corpus of the repository's own FuzzDHCPPacketParsing (pkg/dhcp/fuzz_test.go)
+		{}, {0x01}, {0x02, 0x01, 0x06, 0x00}, make([]byte, 300), make([]byte, 2000),
 	}
 	// dhcp4-handler — case layout: [0] fixed prelude selector (see dhcp4Prelude), [1] 0 = that prelude, otherwise
 	// [2..3] describe a generated history (d4Shape), rest = raw UDP payload.
@@ -229,7 +231,9 @@ func init() {
 	// dhcp4-opt82: the input is the BODY of option 82 (arbitrary bytes), carried by an otherwise valid relayed
 	// DISCOVER → REQUEST(offered address) → RELEASE exchange, so the parser sees it in every handler.
 	// case layout: [0] bit0 relayed (giaddr set), bit1 second client with the same body afterwards; rest = option body.
-	opt82Consts := [][]byte{hx("01 04 706f7274 02 04 72656d31"), {}, hx("01"), hx("01 00"), hx("01 ff"), hx("01 ff 41"), hx("01 01"), hx("02 00 01 00"), hx("01 02 4142 01 02 4344"), hx("09 05 0102030405 01 01 58")}
+	opt82Consts := [][]byte{hx("01 04 706f7274 02 04 72656d31"), {}, hx("01"), hx("01 00"), hx("01 ff"), hx("01 ff 41"), hx("01 01"), hx("02 00 01 00"), hx("01 02 4142 01 02 4344"), hx("09 05 0102030405 01 01 58"),
+		// the seed corpus of the repository's own FuzzOption82Parsing (pkg/dhcp/fuzz_test.go)
+		[]byte("\x01\x05eth01"), []byte("\x02\x04rem1"), []byte("\x01\x03cid\x02\x03rid"), {1, 0}, []byte("\x01\xffabc"), []byte("\xff\x0aabcdefghij")}
 	register(&target{
 		name: "dhcp4-opt82",
 		run: func(data []byte, c *caseInfo) {
